@@ -119,6 +119,20 @@ func genC04(g *Gen, tier string) *Program {
 	for t := g.Range(1, 2); t > 0; t-- {
 		p.Tasks = append(p.Tasks, genDerivationTask(g, c, 6, g.Range(4, nOps), wDelim, wOdd, []string{"k", "env", "a"}))
 	}
+	if c.Sanitize == nil && c.Prefix == "" && g.Bool(20) {
+		// two different identities that an implementation keeping delimiters apart
+		// with an escape character must still keep apart (see escapeTwins)
+		tws := escapeTwins(g, pick(g, "svc", "x", ""), pick(g, "a", "k"), pick(g, "1", "x", ""), pick(g, "b", "m"), pick(g, "2", "y"))
+		tw := tws[g.Intn(len(tws))]
+		for i, d := range tw {
+			i := i
+			p.Tasks = append(p.Tasks, d.ops(func(s int) []Op {
+				return []Op{{K: "counter", S: s, M: 1, Name: "c"}, {K: "inc", M: 1, I: int64(100 + i)},
+					{K: "gauge", S: s, M: 2, Name: "g"}, {K: "upd", M: 2, F: f64bits(float64(i) + 0.25)},
+					{K: "timer", S: s, M: 3, Name: "t"}, {K: "rec", M: 3, I: int64(7 + i)}}
+			}))
+		}
+	}
 	settleEpilogue(g, p)
 	return p
 }
